@@ -1,7 +1,7 @@
 package raft
 
 import (
-	"bufio"
+	"bytes"
 	"encoding/binary"
 	"errors"
 	"fmt"
@@ -207,17 +207,41 @@ func (l *persistentLog) Open() error {
 }
 
 func (l *persistentLog) Replay() error {
-	reader := bufio.NewReader(l.file)
+	data, err := io.ReadAll(l.file)
+	if err != nil {
+		return fmt.Errorf("could not read log file: %w", err)
+	}
+	reader := bytes.NewReader(data)
+
+	// The size of the prefix of the file that consists of complete records.
+	validSize := int64(0)
 
 	for {
 		entry, err := decodeLogEntry(reader)
-		if errors.Is(err, io.EOF) {
+		if errors.Is(err, io.EOF) || errors.Is(err, io.ErrUnexpectedEOF) {
+			// Either the end of the log or a record that was only partially
+			// written before a crash. Such a record was never acknowledged.
 			break
 		}
 		if err != nil {
 			return fmt.Errorf("could not decode log entry: %w", err)
 		}
 		l.entries = append(l.entries, &entry)
+		validSize = int64(len(data)) - int64(reader.Len())
+	}
+
+	// Remove a partially written record from the end of the file so that
+	// new entries are not appended after it.
+	if validSize < int64(len(data)) {
+		if err := l.file.Truncate(validSize); err != nil {
+			return fmt.Errorf("could not truncate log file: %w", err)
+		}
+		if err := l.file.Sync(); err != nil {
+			return fmt.Errorf("could not sync log file: %w", err)
+		}
+	}
+	if _, err := l.file.Seek(validSize, io.SeekStart); err != nil {
+		return fmt.Errorf("could not seek log file: %w", err)
 	}
 
 	// The log must always contain at least one entry.
